@@ -1436,6 +1436,25 @@ ctl('e6-frame-cancel-overwritten', 'C08', 'E6', RT,
 	h.stopFrameHandling = nil
 """, 'HandleParticipantJoin:registers-frame-callback')
 
+# ---- round-6 seeds: carried-over module state registered in the new session; row/column bounds crossed
+ctl('j3-carried-over-state-registered', 'C16', 'J3', 'modules/odal/odal.go',
+    """		state = s.LoadOrStoreModuleState(m.Name(), &State{})""",
+    """		if m.state == nil {
+			m.state = &State{}
+		}
+		state = s.LoadOrStoreModuleState(m.Name(), m.state)""",
+    'Init:fresh-candidate')
+ctl('g3b-column-index-bounded-by-row-count', 'C20', 'G3b', 'modules/dagaz/grid_spatial_partition.go',
+    """		if cellX < 0 || cellX >= len(grid.Grid[0]) {
+			return nil, -1
+		}
+		if cellY < 0 || cellY >= len(grid.Grid) {""",
+    """		if cellX < 0 || cellX >= len(grid.Grid) {
+			return nil, -1
+		}
+		if cellY < 0 || cellY >= len(grid.Grid[0]) {""",
+    'IntersectQuad:bound[cellX]')
+
 os.makedirs(OUT, exist_ok=True)
 bad = 0
 names = set()
